@@ -19,7 +19,7 @@ def describe(P, cfg):
          "mode": cfg.get("mode", "solve"), "var": cfg.get("var", 0),
          "decision": cfg.get("decision", list(range(len(P["doms"])))),
          "vparams": cfg.get("vparams") or [], "dparams": cfg.get("dparams") or [], "ent": cfg.get("ent", 1),
-         "sched": cfg.get("sched", 0)}
+         "sched": cfg.get("sched", 0), "calls": cfg.get("calls", 1)}
     D["cfg"] = c
     return D
 
@@ -82,6 +82,7 @@ def fam_random(n, seed, modes=("solve",), allcfg=False, ca=None, heights=None):
             cfg["var"] = r.randrange(len(P["vidx"]))
             cfg["height"] = 16 if not heights else r.choice(heights)
             cfg["ent"] = r.choice([0, 1, 1])
+            cfg["calls"] = 2 if k % 3 == 0 else 1      # every third: a second call on the same solver object
             yield P, cfg
             k += 1
 
